@@ -54,7 +54,7 @@ static void enumerateAll(const std::function<void(const Spec &)> &f) {
                   for (auto &fc : fixedCells) s.cells.push_back(fc);
                   s.aux = 0;
                   bool sparse = n <= 2;
-                  withParams(s, sparse || gThorough);
+                  withParams(s, sparse || (gThorough && n <= 3));
                   return;
                 }
                 int w = widths[wo.v[i]];
@@ -135,6 +135,7 @@ static vf::Verdicts eval(const Spec &s, vf::Ctx &ctx) {
   vf::Verdicts out;
   ColoquinteParameters params = makeParams(s);
   if (!paramsAccepted(params)) { ctx.count("skipped_rejected_params"); return out; }
+  if (!inDomain(s)) { ctx.count("skipped_out_of_domain"); return out; }
   double ow = params.legalization.orderingWidth;
   std::string suffix = (ow < 0.0 || ow > 1.0) ? ":orderingWidth-outside-[0,1]" : "";
   Circuit c = build(s);
@@ -172,7 +173,7 @@ static vf::Verdicts eval(const Spec &s, vf::Ctx &ctx) {
 
 int main(int argc, char **argv) {
   vf::Opts o = vf::parseOpts(argc, argv);
-  gThorough = o.thorough();
+  gThorough = o.thorough() && o.pass != "san";  // the secondary sanitizer pass of the thorough tier uses the quick alphabet
   vf::Check<Spec> c;
   c.property = "C11";
   c.level = "exploration";
